@@ -111,6 +111,10 @@ enum Alphabet {
     /// representative operations at the front, in the middle and at the back
     /// of larger vectors
     Large,
+    /// Insert / Set / Remove at EVERY index of a larger vector (round 7: an
+    /// off-by-one that only shows at one particular index of a view of more
+    /// than 32 items, seeded C10-13)
+    LargeEveryIndex,
     /// no source mutators at all (configurations that are about the initial
     /// values of a very large vector)
     NoOps,
@@ -328,6 +332,25 @@ fn ops_for(len: u8, cfg: &Cfg, out: &mut Vec<Tok>) {
                 out.push(Tok::Op(Op::Truncate(2)));
             }
             out.push(Tok::Op(Op::Clear));
+        }
+        Alphabet::LargeEveryIndex => {
+            for i in 0..len {
+                if room >= 1 {
+                    out.push(Tok::Op(Op::Insert(i, 0)));
+                    if nk > 1 {
+                        out.push(Tok::Op(Op::Insert(i, nk - 1)));
+                    }
+                }
+                out.push(Tok::Op(Op::Set(i, 0)));
+                if nk > 1 {
+                    out.push(Tok::Op(Op::Set(i, nk - 1)));
+                }
+                out.push(Tok::Op(Op::Remove(i)));
+                out.push(Tok::Op(Op::Truncate(i)));
+            }
+            if room >= 1 {
+                out.push(Tok::Op(Op::Insert(len, nk - 1)));
+            }
         }
         Alphabet::NoOps => {}
         Alphabet::Reduced => {
